@@ -122,6 +122,7 @@ impl SimProp for C14 {
             real_components: SIM_REAL.to_vec(),
             stubbed_components: SIM_STUB.to_vec(),
             totality: false,
+            cpu_limit_s: crate::sup::CASE_CPU_LIMIT_S,
             exhaustive: false,
         }
     }
@@ -138,7 +139,11 @@ impl SimProp for C14 {
         let via_sim = g.chance(0.4);
         let args = SimArgs {
             max_trace_length: if g.chance(0.2) { 8 * n + 50 } else { 0 },
-            max_sim_iterations: if via_sim || g.chance(0.5) { 0 } else { 8 * n + 50 },
+            max_sim_iterations: if via_sim || g.chance(0.5) {
+                0
+            } else {
+                8 * n + 50
+            },
             cont: !via_sim && g.chance(0.5),
             only_client: !via_sim && g.chance(0.4),
             only_net: g.chance(0.5),
@@ -169,12 +174,28 @@ impl SimProp for C14 {
         };
         account(stats, &out);
         let d = case.delay_ns as i128;
-        let mut s_times: Vec<i128> = case.trace.iter().filter(|l| l.1).map(|l| l.0 as i128).collect();
-        let mut r_times: Vec<i128> = case.trace.iter().filter(|l| !l.1).map(|l| l.0 as i128).collect();
+        let mut s_times: Vec<i128> = case
+            .trace
+            .iter()
+            .filter(|l| l.1)
+            .map(|l| l.0 as i128)
+            .collect();
+        let mut r_times: Vec<i128> = case
+            .trace
+            .iter()
+            .filter(|l| !l.1)
+            .map(|l| l.0 as i128)
+            .collect();
         s_times.sort();
         r_times.sort();
-        stats.probe_if("burst_same_timestamp", case.trace.windows(2).any(|w| w[0].0 == w[1].0));
-        stats.probe_if("both_directions", !s_times.is_empty() && !r_times.is_empty());
+        stats.probe_if(
+            "burst_same_timestamp",
+            case.trace.windows(2).any(|w| w[0].0 == w[1].0),
+        );
+        stats.probe_if(
+            "both_directions",
+            !s_times.is_empty() && !r_times.is_empty(),
+        );
         stats.probe_if("zero_delay", d == 0);
         let mut v = vec![];
         if let Some(e) = sorted_by_time(&out.trace) {
@@ -193,7 +214,11 @@ impl SimProp for C14 {
         };
         let cmp = |name: &str, got: Vec<i128>, want: Vec<i128>| -> Option<(String, String)> {
             if got != want {
-                let i = got.iter().zip(want.iter()).position(|(a, b)| a != b).unwrap_or(got.len().min(want.len()));
+                let i = got
+                    .iter()
+                    .zip(want.iter())
+                    .position(|(a, b)| a != b)
+                    .unwrap_or(got.len().min(want.len()));
                 Some((
                     "baseline-mismatch".into(),
                     format!(
@@ -215,24 +240,41 @@ impl SimProp for C14 {
             v.push(x);
         }
         if !case.args.only_client {
-            if let Some(x) = cmp("server TunnelRecv", pick(false, 2), s_times.iter().map(|t| t + d).collect()) {
+            if let Some(x) = cmp(
+                "server TunnelRecv",
+                pick(false, 2),
+                s_times.iter().map(|t| t + d).collect(),
+            ) {
                 v.push(x);
             }
-            if let Some(x) = cmp("server TunnelSent", pick(false, 5), r_times.iter().map(|t| t - d).collect()) {
+            if let Some(x) = cmp(
+                "server TunnelSent",
+                pick(false, 5),
+                r_times.iter().map(|t| t - d).collect(),
+            ) {
                 v.push(x);
             }
         }
         for e in &out.trace {
             if e.padding || matches!(e.kind, 1 | 4 | 6 | 7 | 8 | 9) {
-                v.push(("foreign-event".into(), format!("{} in a simulation without machines", e.short())));
+                v.push((
+                    "foreign-event".into(),
+                    format!("{} in a simulation without machines", e.short()),
+                ));
                 break;
             }
             if case.args.only_net && !matches!(e.kind, 2 | 5) {
-                v.push(("foreign-event".into(), format!("{} although only network activity was requested", e.short())));
+                v.push((
+                    "foreign-event".into(),
+                    format!("{} although only network activity was requested", e.short()),
+                ));
                 break;
             }
             if case.args.only_client && !e.client {
-                v.push(("foreign-event".into(), format!("{} although only client events were requested", e.short())));
+                v.push((
+                    "foreign-event".into(),
+                    format!("{} although only client events were requested", e.short()),
+                ));
                 break;
             }
         }
@@ -263,6 +305,7 @@ impl SimProp for C15 {
             real_components: SIM_REAL.to_vec(),
             stubbed_components: SIM_STUB.to_vec(),
             totality: false,
+            cpu_limit_s: crate::sup::CASE_CPU_LIMIT_S,
             exhaustive: false,
         }
     }
@@ -346,7 +389,11 @@ impl SimProp for C15 {
         stats.probe_if("pps_bottleneck_configured", case.pps.is_some());
         for client in [true, false] {
             let share = case.trace.iter().filter(|l| l.1 == client).count();
-            let ns = out.trace.iter().filter(|e| e.kind == 3 && e.client == client).count();
+            let ns = out
+                .trace
+                .iter()
+                .filter(|e| e.kind == 3 && e.client == client)
+                .count();
             let ts = out
                 .trace
                 .iter()
@@ -404,6 +451,7 @@ impl SimProp for C19 {
             real_components: SIM_REAL.to_vec(),
             stubbed_components: SIM_STUB.to_vec(),
             totality: true,
+            cpu_limit_s: crate::sup::CASE_CPU_LIMIT_S,
             exhaustive: false,
         }
     }
@@ -435,12 +483,18 @@ impl SimProp for C19 {
         match run_sim(case) {
             Ok(b) => {
                 if let Some(d) = diff_traces(&a.trace, &b.trace) {
-                    v.push(("not-reproducible".into(), format!("two runs of the same seeded case differ: {d}")));
+                    v.push((
+                        "not-reproducible".into(),
+                        format!("two runs of the same seeded case differ: {d}"),
+                    ));
                     return v;
                 }
             }
             Err(p) => {
-                v.push(("not-reproducible".into(), format!("second run panicked: {p}")));
+                v.push((
+                    "not-reproducible".into(),
+                    format!("second run panicked: {p}"),
+                ));
                 return v;
             }
         }
@@ -450,15 +504,28 @@ impl SimProp for C19 {
         // (iii) bounds
         let mtl = case.args.max_trace_length;
         if mtl > 0 && a.trace.len() > mtl {
-            v.push(("over-length".into(), format!("{} events returned, max_trace_length {mtl}", a.trace.len())));
-        }
-        if !case.args.only_client && !case.args.only_net && a.trace.len() > case.args.max_sim_iterations {
             v.push((
-                "over-iterations".into(),
-                format!("{} events returned, max_sim_iterations {}", a.trace.len(), case.args.max_sim_iterations),
+                "over-length".into(),
+                format!("{} events returned, max_trace_length {mtl}", a.trace.len()),
             ));
         }
-        stats.probe_if("stopped_by_iterations", a.steps.len() >= case.args.max_sim_iterations);
+        if !case.args.only_client
+            && !case.args.only_net
+            && a.trace.len() > case.args.max_sim_iterations
+        {
+            v.push((
+                "over-iterations".into(),
+                format!(
+                    "{} events returned, max_sim_iterations {}",
+                    a.trace.len(),
+                    case.args.max_sim_iterations
+                ),
+            ));
+        }
+        stats.probe_if(
+            "stopped_by_iterations",
+            a.steps.len() >= case.args.max_sim_iterations,
+        );
         stats.probe_if("stopped_by_trace_length", mtl > 0 && a.trace.len() >= mtl);
         // (ii) filters are projections
         let mut base = case.clone();
@@ -523,7 +590,8 @@ pub fn dump(path: &str) {
         let _ = log::set_logger(&LOGGER);
         log::set_max_level(log::LevelFilter::Debug);
     }
-    let doc: Value = serde_json::from_str(&std::fs::read_to_string(path).expect("read")).expect("json");
+    let doc: Value =
+        serde_json::from_str(&std::fs::read_to_string(path).expect("read")).expect("json");
     let Some(case) = SimCase::from_json(&doc["case"]) else {
         println!("not a simulator case");
         return;
@@ -538,9 +606,29 @@ pub fn dump(path: &str) {
                     s.t,
                     if s.client { "C" } else { "S" },
                     KIND_NAMES[s.kind as usize],
-                    if matches!(s.kind, 4 | 6 | 8 | 9) { format!("[m{}]", s.id) } else { String::new() },
-                    tr.map(|t| format!("pad={} byp={} rep={}", t.padding as u8, t.bypass as u8, t.replace as u8)).unwrap_or_default(),
-                    s.actions.iter().map(|a| format!("{}(m{} b{} r{} t{} to{} dur{})", ["Cancel","Pad","Block","Timer"][a.kind as usize], a.machine, a.bypass as u8, a.replace as u8, a.timer, a.timeout_ns, a.duration_ns)).collect::<Vec<_>>()
+                    if matches!(s.kind, 4 | 6 | 8 | 9) {
+                        format!("[m{}]", s.id)
+                    } else {
+                        String::new()
+                    },
+                    tr.map(|t| format!(
+                        "pad={} byp={} rep={}",
+                        t.padding as u8, t.bypass as u8, t.replace as u8
+                    ))
+                    .unwrap_or_default(),
+                    s.actions
+                        .iter()
+                        .map(|a| format!(
+                            "{}(m{} b{} r{} t{} to{} dur{})",
+                            ["Cancel", "Pad", "Block", "Timer"][a.kind as usize],
+                            a.machine,
+                            a.bypass as u8,
+                            a.replace as u8,
+                            a.timer,
+                            a.timeout_ns,
+                            a.duration_ns
+                        ))
+                        .collect::<Vec<_>>()
                 );
             }
         }
